@@ -78,6 +78,7 @@ struct Cl {
     got: Vec<u8>,
     failed: Option<String>,
     done: bool,
+    last_sent: Vec<u8>,
 }
 
 impl Cl {
@@ -100,26 +101,33 @@ impl Cl {
     /// sends the datagram of the current step (no waiting)
     fn send_step(&mut self) {
         let s = self.step;
-        match (self.script, s) {
-            (Script::D2, 0) | (Script::D1, 0) => self.c.to_server(&rc::request(false, self.name.as_bytes(), &[])),
-            (Script::Dw, 0) => self.c.to_server(&rc::request(false, self.name.as_bytes(), &[("blksize".into(), "8".into()), ("windowsize".into(), "2".into())])),
-            (Script::U2, 0) | (Script::U1, 0) => self.c.to_server(&rc::request(true, self.name.as_bytes(), &[])),
-            (Script::Ub, 0) => self.c.to_server(&rc::request(true, self.name.as_bytes(), &[("blksize".into(), "1024".into())])),
-            (Script::D2, k) | (Script::D1, k) => self.c.to_peer(&rc::ack(k as u16)),
-            (Script::Dw, 1) => self.c.to_peer(&rc::ack(0)),
-            (Script::Dw, 2) => self.c.to_peer(&rc::ack(2)),
-            (Script::Dw, _) => self.c.to_peer(&rc::ack(3)),
+        let o = |a: &str, b: &str| (a.to_string(), b.to_string());
+        let (to_listener, bytes): (bool, Vec<u8>) = match (self.script, s) {
+            (Script::D2, 0) | (Script::D1, 0) => (true, rc::request(false, self.name.as_bytes(), &[])),
+            (Script::Dw, 0) => (true, rc::request(false, self.name.as_bytes(), &[o("blksize", "8"), o("windowsize", "2")])),
+            (Script::U2, 0) | (Script::U1, 0) => (true, rc::request(true, self.name.as_bytes(), &[])),
+            (Script::Ub, 0) => (true, rc::request(true, self.name.as_bytes(), &[o("blksize", "1024")])),
+            (Script::D2, k) | (Script::D1, k) => (false, rc::ack(k as u16)),
+            (Script::Dw, 1) => (false, rc::ack(0)),
+            (Script::Dw, 2) => (false, rc::ack(2)),
+            (Script::Dw, _) => (false, rc::ack(3)),
             (Script::U2, k) | (Script::U1, k) => {
                 let a = (k - 1) * 512;
                 let b = (a + 512).min(self.body.len());
-                self.c.to_peer(&rc::data(k as u16, &self.body[a..b]))
+                (false, rc::data(k as u16, &self.body[a..b]))
             }
             (Script::Ub, k) => {
                 let a = (k - 1) * 1024;
                 let b = (a + 1024).min(self.body.len());
-                self.c.to_peer(&rc::data(k as u16, &self.body[a..b]))
+                (false, rc::data(k as u16, &self.body[a..b]))
             }
+        };
+        if to_listener {
+            self.c.to_server(&bytes);
+        } else {
+            self.c.to_peer(&bytes);
         }
+        self.last_sent = bytes;
     }
     /// number of replies the step's datagram elicits from a correct server
     fn replies_expected(&self) -> usize {
@@ -211,14 +219,19 @@ fn run_one(srv: &Srv, cfg: &SrvCfg, scripts: &[Script], same_file: bool, order: 
                 let _ = std::fs::write(&p, &body);
             }
         }
-        cls.push(Cl { script: *s, c: Client::new(srv.addr), name, body, step: 0, got: vec![], failed: None, done: false });
+        cls.push(Cl { script: *s, c: Client::new(srv.addr), name, body, step: 0, got: vec![], failed: None, done: false, last_sent: vec![] });
     }
     let mut intruder_sock: Option<Client> = None;
     let mut intruder_reply: Option<Vec<u8>> = None;
     let mut intruder_sent_to_listen = false;
     let do_intruder = |cls: &Vec<Cl>, intruder_sock: &mut Option<Client>, intruder_reply: &mut Option<Vec<u8>>, sent_to_listen: &mut bool, it: &Intruder| {
-        let mut ic = Client::new(srv.addr);
         let victim_peer: Option<SocketAddr> = cls[0].c.peer;
+        // never send to a transfer port that may already have been closed: ephemeral ports are reused system-wide and the
+        // datagram would land in some other socket (of a parallel shard) — seen as cross-talk once in ~10^5 executions
+        if it.to_transfer && (cls[0].done || victim_peer.is_none()) && victim_peer != Some(srv.addr) {
+            return;
+        }
+        let mut ic = Client::new(srv.addr);
         let target = if it.to_transfer { victim_peer.unwrap_or(srv.addr) } else { srv.addr };
         let _ = ic.sock.send_to(&intruder_bytes(it.kind), target);
         if target == srv.addr {
@@ -268,6 +281,29 @@ fn run_one(srv: &Srv, cfg: &SrvCfg, scripts: &[Script], same_file: bool, order: 
         }
     }
     let any_failed = cls.iter().any(|c| c.failed.is_some());
+    // late duplicates: once its transfer is over an endpoint owns no transfer any more; a repeated copy of its last
+    // datagram reaching the listening port must be answered with an ERROR (and must not hurt the server)
+    let mut late_viol: Vec<(String, String)> = vec![];
+    let transfer_sources: Vec<usize> = cls.iter().map(|c| c.c.sources.len()).collect();
+    if !any_failed && intr.is_none() {
+        quiesce();
+        for (i, c) in cls.iter_mut().enumerate() {
+            let b = c.last_sent.clone();
+            c.c.to_server(&b);
+            let t0 = Instant::now();
+            let mut reply = None;
+            while t0.elapsed() < BACKSTOP {
+                if let Some((r, _)) = c.c.recv_wait(Duration::from_millis(20)) {
+                    reply = Some(r);
+                    break;
+                }
+            }
+            match reply.as_ref().map(|r| rc::decode(r)) {
+                Some(Ok(RPacket::Error { .. })) => {}
+                _ => late_viol.push(("late-duplicate-not-refused".into(), format!("client {i} ({}): a late copy of its last datagram {} sent to the listening port after its transfer had ended was answered with {} instead of an ERROR", c.script.name(), rc::describe(&b), reply.as_ref().map(|r| rc::describe(r)).unwrap_or("nothing".into())))),
+            }
+        }
+    }
     if any_failed {
         for c in cls.iter_mut() {
             c.abort();
@@ -277,6 +313,7 @@ fn run_one(srv: &Srv, cfg: &SrvCfg, scripts: &[Script], same_file: bool, order: 
         viol.push(("not-quiescent".into(), "transfer threads still alive 3 s after all scripts ended".into()));
     }
     // oracle
+    viol.extend(late_viol);
     let listen_port = srv.addr.port();
     let mut ports: Vec<u16> = vec![];
     for (i, c) in cls.iter_mut().enumerate() {
@@ -295,7 +332,7 @@ fn run_one(srv: &Srv, cfg: &SrvCfg, scripts: &[Script], same_file: bool, order: 
         while let Some((b, _)) = c.c.try_recv() {
             viol.push(("extra-datagram".into(), format!("client {i} ({}): unexpected extra datagram {}", c.script.name(), rc::describe(&b))));
         }
-        let srcs: std::collections::BTreeSet<u16> = c.c.sources.iter().map(|s| s.port()).collect();
+        let srcs: std::collections::BTreeSet<u16> = c.c.sources.iter().take(transfer_sources[i]).map(|s| s.port()).collect();
         if cfg.single {
             if srcs.iter().any(|p| *p != listen_port) {
                 viol.push(("single-port-source".into(), format!("client {i}: datagrams came from ports {:?}, listening port is {listen_port}", srcs)));
@@ -384,7 +421,8 @@ pub fn cell(spec: &Value) -> Value {
     let orders = interleavings(&scripts.iter().map(|s| s.steps()).collect::<Vec<_>>());
     let total_steps: usize = scripts.iter().map(|s| s.steps()).sum();
     let mut outcomes: std::collections::BTreeSet<u64> = Default::default();
-    for (oi, order) in orders.iter().enumerate() {
+    let budget = Budget::new();
+    'cell: for (oi, order) in orders.iter().enumerate() {
         let mut intrs: Vec<Option<Intruder>> = vec![None];
         if intr_mode == "all" {
             intrs.clear();
@@ -397,6 +435,9 @@ pub fn cell(spec: &Value) -> Value {
             }
         }
         for it in &intrs {
+            if budget.over(&mut c) {
+                break 'cell;
+            }
             let r = run_one(&srv, &cfg, &scripts, same_file, order, it.as_ref(), overlapped);
             c.executions += 1;
             c.states += 1;
